@@ -276,7 +276,10 @@ pub fn gen_boundary_message(rng: &mut Rng, target_total: usize, seals: &[Seal], 
 pub fn mutate(rng: &mut Rng, src: &[u8], other: Option<&[u8]>) -> Vec<u8> {
     let mut b = src.to_vec();
     let n = b.len();
-    match rng.below(22) {
+    // (under the Miri interpreter the kinds that make a message much larger are left out: a single
+    // check of a 4096-attribute message takes longer there than the whole layer is given)
+    let kinds = if cfg!(miri) { 16 } else { 22 };
+    match rng.below(kinds) {
         21 if n >= 28 && b[n - 8..n - 4] == [0x80, 0x28, 0x00, 0x04] => {
             // the FINGERPRINT value replaced by what an almost-right implementation computes: the
             // CRC without the XOR, byte-swapped, complemented, over a prefix whose length field does
